@@ -105,6 +105,21 @@ CHECKS = {
              "over the stub; time steps and forwarded manager calls must equal the model's, judged by specC15.",
         design="§5 C15", technique="Lean 4 proof (adapter invariant over call sequences, reusing the manager invariant) "
                                    "+ differential correspondence with the real adapters"),
+    "C08": dict(
+        text="Lean 4 theorems fresh_twin_managers / mgr_reset_forgets (every simulation whose own reset forgets, every "
+             "manager kind, every prefix history, seed and follow-up: the trace of reset :: follow-up on the used manager "
+             "equals the trace on a newly built one), fresh_twin_openspiel / os_reset_eq (the adapter's _should_reset, "
+             "current player and the manager underneath), gymabs_reset_forgets / gymabs_reset_clears; the model state of "
+             "each layer carries every mutable field of the Python object and reset is written field by field, so the "
+             "theorems fail for a model that skips a field (how F3, F4, F8 were found). Grid-world state components and "
+             "the super-agent / communication wrappers: see the level note. Tie: used-versus-fresh twins on the real "
+             "code (dirty with a generated prefix, reset, follow-up under a fresh seed vs a newly built copy): both "
+             "traces must be identical and equal to the model's.",
+        design="§5 C08", technique="Lean 4 proof (state equality after reset, lifted to traces) + used-versus-fresh twin "
+                                   "differential runs on the real code",
+        note=NOTE + " Layers covered by theorem + twins in this check: the three managers, the OpenSpiel adapter, "
+             "GymABS. The grid-world state components (placement, health, ammo, orientation) and the super-agent and "
+             "communication wrappers have their reset clauses proved and twin-tested in C13/C03, C14 and C20."),
 }
 
 PENDING = {
